@@ -124,6 +124,31 @@ theorem C09_reset_forgets {α : Type} (o : Ops α) (e : Est α) (p now : Nat) (c
     exact fold_shift o p calls (new o now)
   exact ⟨h, by rw [h]; rfl⟩
 
+/-- **eta and duration, as the getters compute them** (the same definitions the driver runs on `Float` against the crate):
+`eta` is zero when the bar is finished, when the length is unknown and when the estimated rate is zero (no progress seen);
+otherwise it is the remaining steps (saturating at 0) divided by the rate the estimator reports at the same instant,
+converted by `secs_to_duration`; `duration` is zero for an unknown length or a finished bar and otherwise the saturating sum
+of `elapsed` and `eta` at the same instant -/
+theorem C09_eta_duration_laws {α : Type} (o : Ops α) (isZero : α → Bool) (toDur : α → Nat) (w : EW α) (now : Nat) :
+    (w.finished = true → etaOf o isZero toDur w now = 0) ∧
+    (w.len = none → etaOf o isZero toDur w now = 0) ∧
+    (isZero (stepsPerSecond o w.est now) = true → etaOf o isZero toDur w now = 0) ∧
+    (∀ len, w.finished = false → w.len = some len → isZero (stepsPerSecond o w.est now) = false →
+      etaOf o isZero toDur w now = toDur (o.div (o.ofNat (len - w.pos)) (stepsPerSecond o w.est now))) ∧
+    (w.len = none ∨ w.finished = true → durationOf o isZero toDur w now = 0) ∧
+    (∀ len, w.len = some len → w.finished = false →
+      durationOf o isZero toDur w now = min (elapsedOf w now + etaOf o isZero toDur w now) durMax) ∧
+    elapsedOf w now = now - w.started := by
+  refine ⟨fun h => by simp [etaOf, h], fun h => by simp [etaOf, h], fun h => ?_, fun len hf hl hz => by simp [etaOf, hf, hl, hz],
+    fun h => ?_, fun len hl hf => by simp [durationOf, hl, hf, durSatAdd], rfl⟩
+  · unfold etaOf
+    split
+    · rfl
+    · split
+      · rfl
+      · simp [h]
+  · rcases h with h | h <;> simp [durationOf, h]
+
 /-- **the source as translated**: `estimator_weight(age) = 0.1 ^ (age / 15)` — the base and the weighting period the
 Float instance of the model (`Model/Estimator`, compared bit for bit with the crate) hard-codes are the source's,
 regenerated on every run -/
